@@ -5,6 +5,7 @@ import (
 	"errors"
 	"fmt"
 	"net/netip"
+	"strings"
 	"time"
 
 	"github.com/DataDog/datadog-traceroute/sack"
@@ -38,20 +39,27 @@ func checkC20() fw.Check {
 	return fw.Check{
 		Prop:  "C20",
 		Level: "exploration",
-		Rule: "one case = RunTraceroute(protocol tcp) with (method in {syn,sack,prefer_sack}) x (target capability in {SACK ok, SACK ok with timestamps, SYN-ACK without SACK-permitted, ACKs without SACK blocks, port closed (real RST: dial refused), handshake never shown to the capture handle}) x (non-capability failure injected into the SACK attempt at the factory / 1st filter / 2nd filter / k-th send / k-th read, wrapped by the production code at its real depth) x (0..2 end-to-end probes); the target is a real listener in the peer namespace plus a simulated SYN-ACK/ACK stream; observations: probe kind of every packet on the wire per handle, accept count of the listener, error chain, result; oracle = decision table of the statement. " +
+		Rule: "one case = RunTraceroute(protocol tcp) with (method in {syn,sack,prefer_sack}) x (target capability in {SACK ok, SACK ok with timestamps, SACK ok with an initial sequence number just below 2^32, SYN-ACK without SACK-permitted, ACKs without SACK blocks, port closed (real RST: dial refused), handshake never shown to the capture handle}) x (non-capability failure injected into the SACK attempt at the factory / 1st filter / 2nd filter / k-th send / k-th read, wrapped by the production code at its real depth) x (0..2 end-to-end probes); the target is a real listener in the peer namespace plus a simulated SYN-ACK/ACK stream; observations: probe kind of every packet on the wire per handle, accept count of the listener, error chain, result; oracle = decision table of the statement. " +
 			"distinct_nontrivial counts distinct (method, capability, fault, e2e>0, outcome) tuples executed",
 		Workers:       8,
 		MinNontrivial: 40,
 		Assumptions:   []string{"faults are combined only with a SACK-capable target, where the expected outcome is unambiguous", "Linux build"},
 		Gen: func(tier string, seed int64) []fw.Case {
 			var reqs []c20Req
-			caps := []string{"sack-ok", "sack-ok-ts", "sack-ok-chatter", "sack-ok-slow-synack", "no-sackperm", "no-blocks", "closed", "no-handshake"}
+			caps := []string{"sack-ok", "sack-ok-ts", "sack-ok-chatter", "sack-ok-slow-synack", "sack-ok-isn-wrap", "no-sackperm", "no-blocks", "closed", "no-handshake"}
 			faults := []string{"factory", "filter1", "filter2", "send1", "send3", "read2", "read9", "read-late"}
 			for _, m := range []string{"syn", "sack", "prefer_sack"} {
 				for _, cp := range caps {
 					for _, e2e := range []int{0, 2} {
 						for _, q := range []int{1, 2} {
 							_ = tier
+							if cp == "sack-ok-isn-wrap" && q > 1 {
+								// two connections whose initial sequence numbers both sit within a few units of 2^32 have
+								// overlapping probe sequence numbers; with the relaxed source check the runner uses, their
+								// time-exceeded quotes are then indistinguishable by construction (the harness would be
+								// manufacturing a 2^-23 coincidence; seen as cross-flow-hop in 3 of 8 runs). One run only.
+								continue
+							}
 							reqs = append(reqs, c20Req{method: m, cap: cp, fault: "none", e2e: e2e, queries: q})
 						}
 					}
@@ -83,6 +91,14 @@ func checkC20() fw.Check {
 				}
 			}
 			var cases []fw.Case
+			// "cannot connect" by silence: the target drops the SYN of the SACK connection (an address behind the
+			// non-forwarding peer namespace). The dial is a real system call, so these two cases run on the real clock
+			// (handshake timeout 300 ms, serial SYN trace of 3 TTLs: about 1.5 s each)
+			for _, m := range []string{"prefer_sack", "sack"} {
+				m := m
+				id := "C20/silent-target/" + m
+				cases = append(cases, fw.Case{ID: id, Run: func(c *fw.Ctx) { runC20Silent(c, id, m) }})
+			}
 			for i, rq := range reqs {
 				rq := rq
 				if rq.maxTTL == 0 {
@@ -119,6 +135,11 @@ func runC20(c *fw.Ctx, id string, rq c20Req) {
 		env.peer.TS = rq.cap == "sack-ok-ts" || rq.cap == "sack-ok-chatter"
 		env.peer.TSVal, env.peer.TSEcr = 1000, 2000
 		env.peer.ShowSynAck = rq.cap != "no-handshake"
+		if rq.cap == "sack-ok-isn-wrap" {
+			// the connection's initial sequence number sits just below 2^32: the probes' sequence numbers, and with
+			// them the SACK edges the target reports, wrap past 0 inside the TTL window. SACK is available.
+			env.peer.ISNForPort = func(port uint16) uint32 { return 0xfffffffe - uint32(port%3) }
+		}
 		if rq.cap == "sack-ok-slow-synack" {
 			// the SYN-ACK of the SACK connection reaches the capture handle late, after the SYN-ACKs the target
 			// sent to the end-to-end SYN probes / other runs (those carry no SACK-permitted: a raw SYN has no options)
@@ -234,7 +255,7 @@ func runC20(c *fw.Ctx, id string, rq c20Req) {
 		viol("e2e-count", fmt.Sprintf("%d end-to-end SYN flows on the wire, %d requested", e2eSynHandles, rq.e2e))
 	}
 	capGap := rq.cap == "no-sackperm" || rq.cap == "no-blocks" || rq.cap == "closed"
-	sackAvailable := rq.cap == "sack-ok" || rq.cap == "sack-ok-ts" || rq.cap == "sack-ok-chatter" || rq.cap == "sack-ok-slow-synack"
+	sackAvailable := strings.HasPrefix(rq.cap, "sack-ok")
 	switch rq.method {
 	case "syn":
 		if accepted != 0 {
@@ -316,4 +337,78 @@ func runC20(c *fw.Ctx, id string, rq c20Req) {
 		env.judgeRuns(out, id)
 	}
 	c.Sample(map[string]any{"request": rq.String(), "outcome": outcome, "kinds": fmt.Sprint(kinds), "accepts": accepted, "error": fmt.Sprint(rerr)})
+}
+
+// runC20Silent: the SYN of the SACK connection is never answered (no RST either). "Cannot connect" is a capability
+// gap: prefer_sack must produce the SYN trace, sack must fail with NotSupported and send no SYN probe.
+func runC20Silent(c *fw.Ctx, id, method string) {
+	// whether an unanswered connect surfaces as the poller's deadline error or as the dial context's (which matches
+	// context.DeadlineExceeded) is a race inside net.Dialer: repeated, so that both forms are seen
+	n := 6
+	if method == "sack" {
+		n = 2
+	}
+	for i := 0; i < n && !c.Violated(); i++ {
+		runC20SilentOnce(c, id, method)
+	}
+}
+
+func runC20SilentOnce(c *fw.Ctx, id, method string) {
+	resetProcessState()
+	target := netip.AddrFrom4([4]byte{10, 205, byte(40 + c.Worker), 9})
+	params := traceroute.TracerouteParams{Hostname: target.String(), Port: 8443, Protocol: "tcp", MinTTL: 1, MaxTTL: 3, Delay: 5,
+		Timeout: 300 * time.Millisecond, TCPMethod: traceroute.TCPMethod(method), TracerouteQueries: 1, E2eQueries: 0}
+	env, err := newReqEnv(c, params, target, 8443, false)
+	if err != nil {
+		c.Inconclusive(err.Error())
+		return
+	}
+	defer env.close()
+	env.modelFor = func(k int, e *simEnv) *pathModel { return flowPath(k, e, 9, false, 2*time.Millisecond) } // routers answer, the target never does
+	t0 := time.Now()
+	out, rerr := env.run(context.Background())
+	el := time.Since(t0)
+	env.w.Lock()
+	syn, sackProbes := 0, 0
+	for _, em := range env.w.Emissions {
+		if em.Pkt == nil || em.Pkt.Proto != 6 {
+			continue
+		}
+		switch em.Pkt.TCPFlags {
+		case wirefmt.TCPSyn:
+			syn++
+		case wirefmt.TCPAck | wirefmt.TCPPsh:
+			sackProbes++
+		}
+	}
+	env.w.Unlock()
+	detail := map[string]any{"method": method, "error": fmt.Sprint(rerr), "syn_probes": syn, "sack_probes": sackProbes, "real_elapsed": el.String()}
+	c.Count("requests", 1)
+	c.Count("silent_target_real_ms", int(el.Milliseconds()))
+	var nse *sack.NotSupportedError
+	switch method {
+	case "prefer_sack":
+		switch {
+		case rerr != nil:
+			c.Violate("C20", "fallback-missing/prefer_sack/silent-target/none", fmt.Sprintf("%s: the target never answered the SYN of the SACK connection (cannot connect = SACK unavailable) but prefer_sack failed instead of falling back: %v", id, rerr), detail)
+		case out == nil:
+			c.Violate("C20", "nil-nil/prefer_sack/silent-target", id+": nil result and nil error", detail)
+		case syn != 3 || sackProbes != 0:
+			c.Violate("C20", "fallback-trace-wrong/prefer_sack/silent-target/none", fmt.Sprintf("%s: expected the SYN trace of TTL 1..3 after the fallback, saw %d SYN and %d SACK probes", id, syn, sackProbes), detail)
+		default:
+			c.Nontrivial("prefer_sack/silent-target/none/e2efalse/ok(syn1,sack0)")
+		}
+	case "sack":
+		switch {
+		case rerr == nil:
+			c.Violate("C20", "sack-unsupported-succeeded/sack/silent-target/none", id+": method sack returned a trace although no connection could be made", detail)
+		case !errors.As(rerr, &nse):
+			c.Violate("C20", "not-supported-lost/sack/silent-target/none", fmt.Sprintf("%s: the error does not expose NotSupportedError: %v", id, rerr), detail)
+		case syn != 0:
+			c.Violate("C20", "sack-masked-by-syn/sack/silent-target/none", fmt.Sprintf("%s: method sack sent %d SYN probes", id, syn), detail)
+		default:
+			c.Nontrivial("sack/silent-target/none/e2efalse/error")
+		}
+	}
+	c.Sample(map[string]any{"case": id, "detail": detail})
 }
